@@ -110,7 +110,12 @@ PREPENDS = {"none": None, "constant": "CONST = 1\n", "import": "import sys\n", "
 IMPORT_FILES = {"none": None, "zero": "VALUE = 1\n", "one": "import os\n\nVALUE = 1\n",
                 "three": "import os\nfrom typing import Optional\nimport json as j\n\nVALUE = 1\n",
                 # given as a dotted path through an alias that the prepend imports (resolved via the prepend's symbols)
-                "alias_dotted": "import os\nimport shutil\n\nVALUE = 2\n"}
+                "alias_dotted": "import os\nimport shutil\n\nVALUE = 2\n",
+                # a __future__ import among the others: it has to stay the first statement of the generated module
+                "future": "from __future__ import annotations\nimport os\nfrom typing import Optional\n\nVALUE = 3\n"}
+# how the mapping is spelled in the input module: "dictionary / mapping / 2-tuple collection" (incl. one-shot iterables)
+MAPFORMS = {"dict": "MAPPING = {%(items)s}", "pairs": "MAPPING = [%(pairs)s]", "zip": "MAPPING = zip([%(names)s], [%(objs)s])",
+            "genexpr": "MAPPING = ((n, o) for n, o in [%(pairs)s])"}
 MODNAME = "c19_input_mod"
 
 
@@ -128,8 +133,19 @@ def build_cases(tier):
                         if tier == "quick" and tpl == TEMPLATES[1] and (pre != "none" or imp != "none"):
                             continue
                         cases.append({"mapping": m, "type": t, "tpl": tpl, "prepend": pre, "imports": imp, "via": "api"})
+    for m in maps:
+        if len(m) > 2:
+            continue
+        for t in TYPES:
+            for form in ("pairs", "zip", "genexpr"):
+                for pre, imp in (("none", "none"), ("import", "one")):
+                    cases.append({"mapping": m, "type": t, "tpl": TEMPLATES[0], "prepend": pre, "imports": imp, "via": "api", "mapform": form})
     for t in TYPES:
         cases.append({"mapping": ["fplain"], "type": t, "tpl": TEMPLATES[0], "prepend": "none", "imports": "none", "via": "cli_existing"})
+        # the refusal must not depend on the other options
+        cases.append({"mapping": ["fplain"], "type": t, "tpl": TEMPLATES[0], "prepend": "import", "imports": "none", "via": "cli_existing"})
+        cases.append({"mapping": ["fplain"], "type": t, "tpl": TEMPLATES[0], "prepend": "none", "imports": "one", "via": "cli_existing"})
+        cases.append({"mapping": ["fplain"], "type": t, "tpl": TEMPLATES[0], "prepend": "import", "imports": "three", "via": "cli_existing"})
         cases.append({"mapping": ["fplain", "ClsPlain"], "type": t, "tpl": TEMPLATES[0], "prepend": "import", "imports": "one", "via": "cli"})
     return cases
 
@@ -173,9 +189,14 @@ class C19(core.Check):
         d = tempfile.mkdtemp(prefix="c19_")
         base = {"type": case["type"], "tpl": case["tpl"], "prepend": case["prepend"], "imports": case["imports"],
                 "mapping": ">".join(case["mapping"]), "via": case["via"], "n": len(case["mapping"])}
+        if case.get("mapform"):
+            base["mapform"] = case["mapform"]
         try:
             src = "\n\n".join(ENTRIES[e] for e in case["mapping"])
-            src += "\n\nMAPPING = {%s}\n" % ", ".join("%r: %s" % (e, e) for e in case["mapping"])
+            src += "\n\n" + MAPFORMS[case.get("mapform", "dict")] % {
+                "items": ", ".join("%r: %s" % (e, e) for e in case["mapping"]),
+                "pairs": ", ".join("(%r, %s)" % (e, e) for e in case["mapping"]),
+                "names": ", ".join("%r" % e for e in case["mapping"]), "objs": ", ".join(case["mapping"])} + "\n"
             with open(os.path.join(d, MODNAME + ".py"), "w") as f:
                 f.write(src)
             imp_path = None
